@@ -237,7 +237,7 @@ BAD_COLOURS = ['', '#', '#1', '#12', '#12345', '#1234567', '#123456789', '#ggg',
 GOOD_COLOURS = ['black', 'White', '#000', '#fff0', '#FF0000', '#ff000080', (0, 0, 0), (1, 2, 3, 0.5), (1, 2, 3, 128), 'darkblue']
 
 
-COLOUR_ALPHABET = ('0', '9', 'f', 'F', 'g', '-', '+', ' ', '_', '\u0661', 'x')
+COLOUR_ALPHABET = ('0', '9', 'f', 'F', 'g', '-', '+', ' ', '_', '\u0661', 'x', '#')
 
 
 def task_colour_strings(I, first):
@@ -252,7 +252,8 @@ def task_colour_strings(I, first):
     bodies = [''] if first == '' else [first + ''.join(t) for n in range(0, 6) for t in itertools.product(COLOUR_ALPHABET, repeat=n)]
     for body in bodies:
         for spell in (body, '#' + body):
-            valid = len(body) in (3, 4, 6, 8) and all(c in hexd for c in body)
+            hx = spell[1:] if spell[:1] == '#' else spell         # exactly one leading '#' is the hexadecimal marker
+            valid = len(hx) in (3, 4, 6, 8) and all(c in hexd for c in hx)
             try:
                 got = W._color_to_rgba(spell, alpha_float=False)
             except ValueError:
@@ -267,7 +268,7 @@ def task_colour_strings(I, first):
             if not valid:
                 wrong.append((spell, 'accepted as %r' % (got,)))
             else:
-                b = body if len(body) > 4 else ''.join(c * 2 for c in body)
+                b = hx if len(hx) > 4 else ''.join(c * 2 for c in hx)
                 want = tuple(int(b[i:i + 2], 16) for i in range(0, len(b), 2))
                 if len(want) == 3:
                     want += (255,)
